@@ -1,9 +1,9 @@
 SPECIFICATION Spec
 CONSTANTS
-  Construct = "map"
-  MaxN = 3
+  Construct = "gen"
+  MaxN = 2
   MaxK = 2
-  FKinds = {"err"}
+  FKinds = {"panicW_CTX"}
   MaxFaults = 1
   OptSet <- OptsCore
   AbortCancels = TRUE
@@ -11,7 +11,7 @@ CONSTANTS
   GenEofByIs = FALSE
   ResolverSame = TRUE
   ExcludedConsulted = TRUE
-  Mut = "swap"
+  Mut = "ctxfirst"
 INVARIANTS TypeOK NothingSwallowed NeverReported NilIffNoFailure AtMostOnce ContinueAll AbortedWorkerStops AbortBound NoStall AllDone
 PROPERTIES Settles
 CHECK_DEADLOCK FALSE
